@@ -152,6 +152,11 @@ pub fn par_for(total: u64, block: u64, f: impl Fn(u64, &mut Acc) + Sync) -> Acc 
                             // a panic that escapes the judge of one case is a verdict about that case (the
                             // operation under test did not complete), not a crash of the machinery
                             if let Err(p) = std::panic::catch_unwind(std::panic::AssertUnwindSafe(|| f(idx, &mut acc))) {
+                                if crate::checks::common::last_panic_in_harness() {
+                                    // the harness's own code panicked: a machinery defect, never a verdict
+                                    eprintln!("MACHINERY ERROR: the harness panicked at {} while evaluating case {idx}", crate::checks::common::last_panic_file());
+                                    std::panic::resume_unwind(p);
+                                }
                                 let msg = p.downcast_ref::<&str>().map(|s| s.to_string()).or_else(|| p.downcast_ref::<String>().cloned()).unwrap_or_else(|| "non-string panic".into());
                                 acc.fail(idx, "", format!("the operation under test panicked while case {idx} of this enumeration was evaluated: {msg}"), serde_json::json!({"kind": "panic-in-case", "key": "panic-in-case", "index": idx}));
                             }
@@ -263,6 +268,10 @@ impl Report {
             wall_s: 0.0,
         };
         if let Err(p) = std::panic::catch_unwind(std::panic::AssertUnwindSafe(|| body(&mut s))) {
+            if crate::checks::common::last_panic_in_harness() {
+                eprintln!("MACHINERY ERROR: the harness panicked at {} in section {name}", crate::checks::common::last_panic_file());
+                std::panic::resume_unwind(p);
+            }
             let msg = p.downcast_ref::<&str>().map(|s| s.to_string()).or_else(|| p.downcast_ref::<String>().cloned()).unwrap_or_else(|| "non-string panic".into());
             s.acc.fail(u64::MAX - 1, name, format!("the operation under test panicked while this enumeration ran: {msg}"), serde_json::json!({"kind": "panic-in-case", "key": "panic-in-case"}));
         }
